@@ -86,7 +86,9 @@ def run(chk):
     ref_all_defined = set()
     for v in prog.variants():
         chk.analysed["variants"] = chk.analysed.get("variants", 0) + 1
-        cands = [f for f in v.defined() if f.get("kind") == "function" and f.get("externC") and not f.get("static")]
+        # a definition with hidden ELF visibility (`#pragma GCC visibility push(hidden)`, a visibility attribute) is not in the
+        # dynamic symbol table of the shared library: no export, whatever its linkage
+        cands = [f for f in v.defined() if f.get("kind") == "function" and f.get("externC") and not f.get("static") and not f.get("hidden")]
         # an inline definition is no export: the compiler emits a (weak) copy only in translation units that use the
         # function without inlining it, so whether the library carries the symbol depends on optimisation level and callers
         defined = {f.name for f in cands if not f.get("inline")}
